@@ -172,7 +172,10 @@ def main(tier, seed, replay=None):
     for i in range(ncirc):
         root = gen_case(rs, i, tier)
         tab = G.Table(root)
+        fp0 = G.fingerprint(root)
         out = impl_outputs(root)
+        if dist.get("purity_viol", 0) < 2 and not G.unchanged(root, fp0, "moment / variance / skewness / kurtosis", rep):
+            dist["purity_viol"] = dist.get("purity_viol", 0) + 1
         roots.append((root, tab, out))
         d = tab.describe()
         for k, v in d["kinds"].items():
